@@ -154,7 +154,9 @@ func TestVerifC02NoiseTamper(t *testing.T) {
 						res := memconn.RunTamper(t, c02Setup(ti, tr, p.stack, dir, short, c02Frames(p.sc.Writes), false), payload, p.sc.Writes, pol, c02Cut(p.stack), e, false, &b.Buf)
 						if cls := b.Tamper(p.stack, res, e, L, c); cls != "" && res.Changed {
 							c.Outcome = cls
-							b.Distinct(c, p.stack, p.sc.Name, dir, e, cls)
+							// the error class is left out of the key: after a mis-framing edit under the PSK layer it
+							// depends on (random) key stream bytes; the verdict kind does not
+							b.Distinct(c, p.stack, p.sc.Name, dir, e, res.Truncation)
 						}
 					}
 				}
